@@ -148,7 +148,7 @@ let () =
            let kk = nat_of_int (ios kk) in
            let nn = nat_of_int !n_cur in
            let t = parse_ctree (read_lines (ios nnodes)) in
-           let inv = ct_inv_b dfun t and holds = ct_holds_b nn t in
+           let inv = ct_inv_b dfun t && leaf100_b t and holds = ct_holds_b nn t in
            if not (inv && holds) then Printf.printf "CT 0 0 inv=%s holds=%s\n" (b01 inv) (b01 holds)
            else begin
              match ct_query dfun kk (valid_b dfun (leaf_points t) kk) (ct_fuel t) t with
